@@ -68,6 +68,27 @@ func MakeTree(r *rand.Rand, root string, features int) (TreeInfo, error) {
 		info.Files++
 		info.FilePaths = append(info.FilePaths, p)
 	}
+	if r.Intn(5) == 0 {
+		// a big text file whose CR LF pairs straddle the usual block boundaries (CR is the last
+		// byte of a 512 B ... 128 KiB block, LF the first byte of the next one)
+		big := make([]byte, 150000)
+		for i := range big {
+			big[i] = byte('a' + i%23)
+		}
+		for _, b := range []int{512, 1024, 4096, 8192, 16384, 32768, 65536, 131072} {
+			big[b-1], big[b] = '\r', '\n'
+		}
+		for i := 0; i < 40; i++ {
+			k := 2 + r.Intn(len(big)-4)
+			big[k], big[k+1] = '\r', '\n'
+		}
+		p := filepath.Join(dirs[r.Intn(len(dirs))], "big-crlf.txt")
+		if os.WriteFile(filepath.Join(root, p), big, 0644) == nil {
+			info.Files++
+			info.CRFiles++
+			info.FilePaths = append(info.FilePaths, p)
+		}
+	}
 	if features >= 1 {
 		nlinks := r.Intn(6)
 		for i := 0; i < nlinks; i++ {
